@@ -332,6 +332,24 @@ class BuiltinMixin:
                         nxt.append((s2, v if is_exc(v) else acc + [v]))
                 paths = nxt
             return [(s, acc if is_exc(acc) else PyList(acc, "list")) for s, acc in paths]
+        # a functional contract that distributes over lists (e.g. rbd): map(f, xs) is f(xs) as a list
+        if isinstance(f, PyC) and inspect.isfunction(f.obj):
+            from .front import key_of_function
+            from .contracts import lookup, SpecEval
+            c = lookup(key_of_function(f.obj))
+            lx = self.lift(xs)
+            if c is not None and c.ghost.get("map_function") and lx.kind == "list":
+                fn = c.ghost["map_function"]
+                self.called_contracts.add(c.name)
+                q = fresh_name("mq")
+                from .front import find_function
+                fi = find_function(c.key)
+                pname = fi.node.args.args[0].arg
+                sp = SpecEval(self, {pname: Val(f"(seq.nth (lval {asV(lx)}) {q})")}, glob=fi.glob)
+                pre = sp.compile_bool(c.requires)
+                self.obl("pre", node, st, f"(forall (({q} Int)) (=> (and (<= 0 {q}) (< {q} (seq.len (lval {asV(lx)})))) {pre}))",
+                         detail=f"requires of {c.name} for every element of the mapped list")
+                return [(st, Val(f"({fn} {asV(lx)})", kind="list", fresh=TRUE))]
         # symbolic: synthesise the comprehension [f(x) for x in xs]
         fname = fresh_name("mapf")
         xname = fresh_name("mapx")
